@@ -498,6 +498,9 @@ def replay_workers(d, case, runner, mods):
                 elif val is real_Pool:
                     saved.append((m, k, val))
                     m.__dict__[k] = mp.Pool
+        real_os_cpu = os.cpu_count
+        if w is not None:
+            os.cpu_count = lambda: w           # a machine with as many CPUs as workers, also for code that asks the os module
         try:
             with contextlib.redirect_stdout(io.StringIO()), contextlib.redirect_stderr(io.StringIO()):
                 try:
@@ -506,6 +509,7 @@ def replay_workers(d, case, runner, mods):
                 except Exception as e:
                     outcome = ('raised', type(e).__name__)
         finally:
+            os.cpu_count = real_os_cpu
             for m, k, val in saved:
                 m.__dict__[k] = val
         h = hashlib.sha1()
